@@ -48,6 +48,20 @@ func (f *Font) Subset(glyphs []glyph.ID) *Font {
 		s.newGid[oldGid] = glyph.ID(newgid)
 	}
 
+	res.Gsub = s.SubsetGsub(f.Gsub)
+	// At this point we have the final list of glyphs.
+	res.Gpos = s.SubsetGpos(f.Gpos)
+	res.Gdef = s.SubsetGdef(f.Gdef)
+
+	switch outlines := f.Outlines.(type) {
+	case *cff.Outlines:
+		res.Outlines = s.SubsetCFF(outlines)
+	case *glyf.Outlines:
+		res.Outlines = s.SubsetGlyf(outlines)
+	}
+
+	// The character map is done last, so that characters of glyphs which
+	// have been added above (ligatures, components) stay mapped.
 	if f.CMapTable != nil {
 		res.CMapTable = make(cmap.Table, len(f.CMapTable))
 		for key := range f.CMapTable {
@@ -68,17 +82,6 @@ func (f *Font) Subset(glyphs []glyph.ID) *Font {
 			}
 			res.CMapTable[key] = c.Encode(key.Language)
 		}
-	}
-	res.Gsub = s.SubsetGsub(f.Gsub)
-	// At this point we have the final list of glyphs.
-	res.Gpos = s.SubsetGpos(f.Gpos)
-	res.Gdef = s.SubsetGdef(f.Gdef)
-
-	switch outlines := f.Outlines.(type) {
-	case *cff.Outlines:
-		res.Outlines = s.SubsetCFF(outlines)
-	case *glyf.Outlines:
-		res.Outlines = s.SubsetGlyf(outlines)
 	}
 
 	return res
